@@ -6,10 +6,16 @@ VERIF = os.path.dirname(os.path.dirname(os.path.abspath(__file__)))
 props = {json.loads(l)["id"]: json.loads(l) for l in open(os.path.join(VERIF, "properties.jsonl"))}
 lines = [l.rstrip("\n") for l in open(os.path.join(VERIF, "notes", "seeded_results.txt")) if " | " in l]
 latest = {}
+strengthened = set()
 for l in lines:
     m = re.match(r"(\S+) (C\d+) (/tmp/seed([23]?)-(C\d+)/out/(\d+)) \| (.*) \| (.*)", l)
     if m:
-        latest[(m.group(2), (("r%s-" % m.group(4)) if m.group(4) else "") + m.group(6))] = (m.group(3), m.group(7), m.group(8))
+        key = (m.group(2), (("r%s-" % m.group(4)) if m.group(4) else "") + m.group(6))
+        if m.group(8).startswith("MISSED") or "after strengthening" in m.group(8):
+            strengthened.add(key)
+        if key in latest and "after strengthening" in latest[key][2] and m.group(8).startswith("CAUGHT"):
+            continue  # keep the line that says what was strengthened; a later lane run only repeats the outcome
+        latest[key] = (m.group(3), m.group(7), m.group(8))
 for (pid, i), (src, conf, res) in sorted(latest.items()):
     dst = os.path.join(VERIF, "seeded", "%s-%s" % (pid, i))
     if not os.path.isdir(src):
@@ -24,7 +30,7 @@ for (pid, i), (src, conf, res) in sorted(latest.items()):
     if m:
         needs = " ".join(m.group(2).split())[:700]
     caught = res.startswith("CAUGHT")
-    sig = re.search(r"violation sig=(\S+)", res)
+    sig = re.search(r"violation sig=(\S+)", res) or re.search(r"after strengthening: (\S+)", res) or re.search(r"rc=1 (C\d+/\S+)", res)
     meta = {
         "property_id": pid,
         "property_title": props[pid]["title"],
@@ -37,7 +43,7 @@ for (pid, i), (src, conf, res) in sorted(latest.items()):
         },
         "check_run": {
             "how": "tools/mut.py %s patch.diff  (scratch copy of /repo with the patch; VERIF_REPO=<copy> ./check %s --tier quick, VERIF_SEED=1)" % (pid, pid),
-            "outcome": "caught" if caught else ("missed" if res.startswith("MISSED") else "error"),
+            "outcome": ("caught after strengthening the check (missed at the first attempt)" if (pid, i) in strengthened else "caught") if caught else ("missed" if res.startswith("MISSED") else "error"),
             "first_signature": sig.group(1) if sig else None,
             "raw": res.strip()[:600],
         },
